@@ -77,6 +77,12 @@ CHECKS['C10'] = dict(technique='runtime monitoring: reference-model oracle (inde
                   'consistently renamed programs must resolve to the same partition and (for function-free programs, through the ANM CLI pipeline) compile to identical bytes.',
              note='Undocumented combinations are not generated (local+const of one name in one block, local named like a parameter in the body block, name used in its own initialiser, arity mismatches).',
              design='3/C10')
+CHECKS['C12'] = dict(technique='runtime monitoring: reference-model oracle (independent argument encoder) + inverse-function oracle (decode, re-encode) over random signatures and boundary values',
+             text='Exploration. Random valid signatures (all parameter letters and attributes, padding anywhere, <= 16 parameters) are declared in a user mapfile; one call with boundary values / registers / strings '
+                  'is compiled through the real ANM pipeline; the blob and register mask read by an independent layout parser must equal an independent encoder, the argument list printed by decompile must equal the '
+                  'arguments written, re-encoding must reproduce the blob, and values that fit under neither reading / unencodable strings / oversize strings must be diagnosed.',
+             note='Conservative range rule (see DESIGN 3/C12). Jump (o,t) and arg0 parameters are exercised by C01/C13, not here. Registers only in 4-byte int and float slots.',
+             design='3/C12')
 WIP = {}  # property -> reason (not claimed)
 
 def main():
